@@ -281,6 +281,16 @@ theorem ps_cancelFound (st : St) (a : Nat) (w : Watch) (l : List Nat) : PStep st
   exact ((((ps_setListOf st _ _).trans (ps_cancelNotify _ a w)).trans (ps_cancelHook _ w.type w.evi)).trans (ps_free _ a)).trans
     (ps_cancelRest _ _)
 
+theorem ps_cancelDetached (st : St) (a : Nat) : PStep st (cancelDetached st a) := by
+  unfold cancelDetached
+  exact (ps_cancelNotify st a _).trans (ps_setW _ _ _)
+
+theorem ps_laterPre (st : St) (a : Nat) : PStep st (laterPre st a) := by
+  unfold laterPre
+  split
+  · exact (ps_setW _ _ _)
+  · exact PStep.refl _
+
 theorem ps_watchCancel (st : St) (a : Nat) : PStep st (watchCancel st a) := by
   unfold watchCancel
   split
@@ -292,7 +302,9 @@ theorem ps_watchCancel (st : St) (a : Nat) : PStep st (watchCancel st a) := by
       · split
         · exact (ps_fail st _)
         · split
-          · exact PStep.refl st
+          · split
+            · exact ps_cancelDetached st a
+            · exact PStep.refl st
           · exact ps_cancelFound st a _ _
 
 
@@ -517,10 +529,12 @@ theorem ps_laterLoopT (l : List Nat) : ∀ st : St, PStep st (laterLoopT st l).1
     · split
       · exact (ps_fail _ _)
       · split
-        · exact ps_laterCb _ _
+        · exact (ps_free _ a).trans (ih _)
         · split
-          · exact (ps_laterCb _ _).trans (ps_fail _ _)
-          · exact ((ps_laterCb _ _).trans (ps_free _ a)).trans (ih _)
+          · exact ((ps_laterPre st a).trans (ps_laterCb _ a))
+          · split
+            · exact (((ps_laterPre st a).trans (ps_laterCb _ a))).trans (ps_fail _ _)
+            · exact ((((ps_laterPre st a).trans (ps_laterCb _ a))).trans (ps_free _ a)).trans (ih _)
 
 
 theorem ps_laterLoop (l : List Nat) (st : St) : PStep st (laterLoop st l) := ps_laterLoopT l st
